@@ -674,6 +674,17 @@ class World:
                         allowed += [pos[1] + (i,) for i in range(pos[2], pos[3])]
                 if not allowed:
                     allowed = None   # model lost track: only the generic checks apply
+                if rec['kind'] != 'expr' and self.canon(rec['node']) == self.canon(ni) and name != 'rw_sum':
+                    # a cursor of this very program: the aim is exactly the listed sites at or beneath it
+                    # (a candidate of several statements only when all of them are); none -> rejected
+                    inside = [t for t in site_targets if all(any(beneath_or_at(p, mp) for mp in rec['paths']) for p in t)]
+                    self.stats.count('ops', 'apply:cursor-of-this-program')
+                    if inside:
+                        firsts = [t[0] for t in inside]
+                        allowed = [p for t in inside for p in t]
+                        must_change = [t for t in inside if not any(q != t[0] and beneath_or_at(t[0], q) for q in firsts)]
+                    else:
+                        expect_raise = 'cursor-names-no-site'
         try:
             g = strategy_call(name, f, where, params, self.rules.get(name))
             raised = None
